@@ -40,9 +40,11 @@ static Bytes ip_packet(const Dgram& d, int from, int to, bool mf, bool df = fals
     h.insert(h.end(), d.payload.begin() + from, d.payload.begin() + to);
     return h;
 }
+static bool g_pad_eth = false;
 static Bytes eth_wrap(const Bytes& ip) {
     Bytes e = {0x02, 0, 0, 0, 0, 2, 0x02, 0, 0, 0, 0, 1, 0x08, 0x00};
     e.insert(e.end(), ip.begin(), ip.end());
+    if (g_pad_eth) while (e.size() < 60) e.push_back(0);        // minimum-size padding behind the IP total length
     return e;
 }
 
@@ -68,7 +70,7 @@ static std::string ev_str(const Ev& e) {
 
 struct Cfg {
     std::vector<Dgram> d;
-    bool eth;
+    bool eth; bool pad = false;
     std::string name;
 };
 
@@ -222,6 +224,7 @@ static std::vector<Cfg> configs(bool thorough) {
                         }
                     }
                 }
+    { size_t n0 = v.size(); for (size_t i = 0; i < n0; ++i) if (v[i].eth) { Cfg c = v[i]; c.pad = true; c.name += " padded-to-60"; v.push_back(c); } }
     // large family: the statement quantifies over payloads of 1..65515 bytes, so the sizes at the top of the range (total length
     // 65535, 65534, the largest fragment offset, one past 32 KiB) are configurations too; cuts are every non-empty subset of
     // {8, 32768, last 8-byte boundary}, with and without IP options (header 24: the maximum payload is 65511)
@@ -266,7 +269,7 @@ static std::string cfg_name(int n, unsigned mask, int tail, int proto, int var, 
 }
 
 static void run_cfg(const Cfg& c, int index, const std::string* rp = 0, std::string* rerr = 0) {
-    g_cfg = c;
+    g_cfg = c; g_pad_eth = c.pad;
     Explorer<S, Ev> ex;
     for (size_t d = 0; d < c.d.size(); ++d)
         for (size_t f = 0; f + 1 < c.d[d].cuts.size(); ++f) ex.alphabet.push_back(Ev{0, (int)d, (int)f});
